@@ -28,7 +28,13 @@ SCENARIO = {
     '/wiki/1': ('GET', 'full', True), '/wiki/2': ('GET', 'full', True),
     # responses that declare no Content-Type at all: a 204, an application-made 304, a body relayed from an upstream that named no type
     '/notype204': ('GET', 'full', False), '/notype304': ('GET', 'full', False), '/notype': ('GET', 'full', False),
+    # an endpoint that reads the RAW request body (a webhook checking a signature, an echo service)
+    '/rawbody': ('POST', 'full', True),
 }
+RANGES = [None, None, None, None, 'bytes=0-9', 'bytes=100-', 'bytes=1000000-', 'bytes=10-5', 'lines=1-2', 'bytes=-100', 'bytes=0-0,5-6']
+BODIES = [None, ['application/x-www-form-urlencoded', 'a=1&b=two&_prof=&format=html'], ['application/x-www-form-urlencoded', 'p=posted&q=1'],
+          ['multipart/form-data; boundary=BOUND', '--BOUND\r\nContent-Disposition: form-data; name="p"\r\n\r\nvalue\r\n--BOUND--\r\n'],
+          ['application/json', '{"a": [1, 2, 3]}'], ['text/plain', 'plain body ' * 50]]
 # Cookie headers a client may send whatever the application is (only the signed-cookie middleware looks at them): its cookie's
 # name with values that are not what it issued
 COOKIES = [None, None, None, 'clastic_cookie=abc?x=1', 'clastic_cookie=a?b', 'clastic_cookie=?', 'clastic_cookie="AAAA?a=b&c"',
@@ -117,6 +123,10 @@ def build_app(mws):
             return r
         return f
 
+    def rawbody(request):
+        data = request.get_data()
+        return Response(b'got %d bytes: ' % len(data) + data[:2000], mimetype='text/plain')
+
     def download(request):
         import io
         from werkzeug.wsgi import wrap_file
@@ -132,7 +142,7 @@ def build_app(mws):
     routes = [('/ok', ok), ('/bin', binr), ('/empty', empty), ('/ctx', ctx, render_basic), ('/redir', redir),
               ('/raise404', raise404), ('/ret403', ret403), ('/ret503long', ret503long), ('/nb', nb), ('/boom', boom), ('/js', js),
               ('/stream', stream), ('/pre', pre), ('/vary_accept', vary_accept), ('/vary_cookie', vary_cookie), ('/download', download), ('/ctxfalsy', ctxfalsy, render_basic), ('/wiki/<n:int>', wiki),
-              ('/notype204', notype(204, b'')), ('/notype304', notype(304, b'')), ('/notype', notype(200, b'upstream bytes ' * 100)), POST('/postonly', ok), ('/size/<n:int>/<kind>', sized)]
+              POST('/rawbody', rawbody), ('/notype204', notype(204, b'')), ('/notype304', notype(304, b'')), ('/notype', notype(200, b'upstream bytes ' * 100)), POST('/postonly', ok), ('/size/<n:int>/<kind>', sized)]
     return Application(routes, middlewares=[inst[m]() for m in mws])
 
 
@@ -145,7 +155,13 @@ def send(app, rq):
         headers['User-Agent'] = rq['ua']
     if rq.get('cookie') is not None:
         headers['Cookie'] = rq['cookie']
-    r = wsgi.call(app, wsgi.environ(rq['path'], method=rq['method'], query=rq.get('query', ''), headers=headers))
+    if rq.get('range') is not None:
+        headers['Range'] = rq['range']
+    body = (rq.get('body') or [None, ''])[1].encode('utf8')
+    env = wsgi.environ(rq['path'], method=rq['method'], query=rq.get('query', ''), headers=headers, body=body)
+    if rq.get('body'):
+        env['CONTENT_TYPE'] = rq['body'][0]
+    r = wsgi.call(app, env)
     ce = r.header('Content-Encoding')
     body, bad = r.body, None
     if ce == 'gzip' and rq['method'] != 'HEAD':
@@ -176,7 +192,11 @@ def impl(case):
                     for res in hits.values():
                         res.resize(1)
         # the inner body as the baseline sends it (for the gzip model: its length and compressed length)
-        r = wsgi.call(base, wsgi.environ(rq['path'], method='GET' if rq['method'] == 'HEAD' else rq['method'], query=rq.get('query', '')))
+        envb = wsgi.environ(rq['path'], method='GET' if rq['method'] == 'HEAD' else rq['method'], query=rq.get('query', ''),
+                            body=(rq.get('body') or [None, ''])[1].encode('utf8'))
+        if rq.get('body'):
+            envb['CONTENT_TYPE'] = rq['body'][0]
+        r = wsgi.call(base, envb)
         out.append({'base': a, 'with': b2, 'inner_len': len(r.body), 'inner_complen': len(gzip_bytes(r.body, 6))})
     return out
 
@@ -251,7 +271,12 @@ def gen_case(rng, tier):
             method = 'GET'
         reqs.append({'path': path, 'method': method, 'ae': rng.choice(ACCEPT_ENCODINGS), 'ua': rng.choice(AGENTS),
                      'query': rng.choice(['', 'q=1', 'x=y&q=z', '_prof_sort=tottime', '_prof=&_prof_sort=calls', '_prof_sort=']),
-                     'cookie': rng.choice(COOKIES)})
+                     'cookie': rng.choice(COOKIES), 'range': rng.choice(RANGES)})
+        if path == '/rawbody' or (method == 'POST' and rng.random() < 0.5):
+            reqs[-1]['body'] = rng.choice(BODIES[1:])
+    if 'postdata' in mws:
+        # PostDataMiddleware's very purpose is to parse the form out of the body: an endpoint reading the raw body is not its client
+        reqs = [r for r in reqs if r['path'] != '/rawbody']
     if 'stats' in mws:
         reqs = reqs + [dict(r) for r in reqs[:6]] + [dict(r) for r in reqs[:6]]      # the same route and status again and again
         return {'mws': mws, 'requests': reqs, 'small_stores': rng.random() < 0.7}
